@@ -33,6 +33,13 @@ type Violation struct {
 	Count     int64      `json:"count"`
 	Size      int        `json:"size"` // smaller = simpler witness
 	Path      string     `json:"path,omitempty"`
+	// Worker / Workers: which shard of the enumeration found it. HistoryDependent: the case does
+	// not violate the property when executed alone in a fresh process, but does, every time, when
+	// the shard's deterministic sequence of executions is run again in one process — the code under
+	// test keeps state from one execution to the next.
+	Worker           int  `json:"worker"`
+	Workers          int  `json:"workers,omitempty"`
+	HistoryDependent bool `json:"history_dependent,omitempty"`
 }
 
 type StageResult struct {
